@@ -32,10 +32,10 @@ type bwsState struct {
 type bwsRoles struct {
 	// life: the life cycle unstarted → running → stopped, recorded either by two booleans (initialised, stopped) or by
 	// one field of an integer type with a constant per state; latchField/latchVal: the store that records "stopped"
-	life       []bwsState
-	lifeFields []string
-	latchField string
-	latchVal   int64
+	life                                                 []bwsState
+	lifeFields                                           []string
+	latchField                                           string
+	latchVal                                             int64
 	mu, writer, ticker, stop, done, initialized, stopped string
 	initFn, loop                                         *ssa.Function
 	loopGo                                               *ssa.Go
